@@ -264,6 +264,13 @@ def _comp(t, T):
     lam = t["wavelength"]
     vec = isinstance(lam, list)
     warg = np.array(lam, dtype=float) if vec else lam
+    wform = t.get("wform", "array")
+    if vec and wform == "asis":
+        warg = np.array(lam)               # dtype follows the values: whole numbers give an integer grid
+    elif vec and wform == "list":
+        warg = list(lam)
+    elif vec and wform == "tuple":
+        warg = tuple(lam)
     if not vec and t.get("wtype"):
         warg = getattr(np, t["wtype"])(lam)             # a numpy scalar (np.int64 from arange, np.float32 from a file)
     handed = list(mats)
@@ -272,8 +279,10 @@ def _comp(t, T):
         # the caller goes on using its list and its wavelength buffer for something else before the first call
         handed.reverse()
         handed.append(P.formula("Gd"))
-        if vec:
+        if vec and isinstance(warg, np.ndarray) and warg.dtype.kind == "f":
             warg *= 3.0
+        elif vec and isinstance(warg, list):
+            warg.append(7.5)
     lams = lam if vec else [lam]
     evs = []
 
@@ -304,7 +313,7 @@ def _comp(t, T):
         """what a caller may do with arrays it was handed: accumulate into them in place"""
         for x in res:
             if isinstance(x, np.ndarray) and x.ndim > 0:
-                x += 8.72
+                x += (8.72 if x.dtype.kind in "fc" else 8)       # (zeros for an integer grid may be integer zeros)
     w = np.array(ws, dtype=float)            # one weight array for the whole life of the calculator (a fit loop)
     res = call("", ws, t["density"], warr=w)
     if t.get("again"):
